@@ -307,10 +307,20 @@ def run_transform(ctx, desc):
         td = xr.DataArray(np.stack([np.arange(n + 1.0) + 1, np.arange(n + 1.0) * 2 + 1]), dims=["col", "z_ou"], name="dens")
     as_da = desc["pick"] % 2 == 0
     tgt = xr.DataArray(target, dims=["lev"]) if as_da else target
-    res = call_outcome(lambda: g.transform(da, axis, tgt, target_data=td, method=method))
+    # the other options of transform, valid in themselves, are drawn too: an ill-posed request stays ill-posed with them
+    opts = [{}, {"bypass_checks": True}, {"mask_edges": False}, {"bypass_checks": True, "mask_edges": False}, {"suffix": "_x"}][(desc["pick"] // 7) % 5]
+    if (desc["pick"] // 3) % 4 == 0:
+        opts = dict(opts)
+        td_kw = {}  # target_data omitted: the grid's own coordinate
+    else:
+        td_kw = {"target_data": td}
+    if method == "conservative":
+        td_kw = {"target_data": td}
+    res = call_outcome(lambda: g.transform(da, axis, tgt, method=method, **td_kw, **opts))
     if res[0] == "return" and hasattr(res[1], "compute"):
         res = call_outcome(lambda: res[1].compute())
-    judge(ctx, desc, ("transform", edit, True, method, as_da), res, f"transform(method={method}, axis={axis}, target={target.tolist()}, grid {kwg}, positions {pos}) [{edit}]", edit, True)
+    judge(ctx, desc, ("transform", edit, True, method, as_da, tuple(sorted(opts)), bool(td_kw)), res,
+          f"transform(method={method}, axis={axis}, target={target.tolist()}, options {opts}, target_data {'given' if td_kw else 'omitted'}, grid {kwg}, positions {pos}) [{edit}]", edit, True)
 
 
 def run_metric(ctx, desc):
